@@ -167,9 +167,9 @@ Qed.
 Lemma stem_key_number (F : bytes) i : stem_key (F ++ r_char :: digs i) = (F ++ r_char :: digs i, None).
 Proof.
   unfold stem_key. set (B := F ++ r_char :: digs i).
-  destruct (find_sub restart_tag B) as [ix|] eqn:E; [|reflexivity]. cbv zeta.
+  destruct (find_last_sub restart_tag B) as [ix|] eqn:E; [|reflexivity]. cbv zeta.
   destruct (forallb is_digit (skipn (ix + 9) B)) eqn:D; [exfalso | rewrite andb_false_r; reflexivity].
-  apply find_sub_prefix in E.
+  apply find_last_sub_prefix in E.
   assert (S : strip_prefix restart_tag (skipn ix B) = Some (skipn 9 (skipn ix B))) by (unfold strip_prefix; rewrite E; reflexivity).
   apply strip_prefix_spec in S. rewrite skipn_skipn', forallb_is_digit in *.
   assert (X : B = (firstn ix B ++ [46; 114; 101; 115; 116; 97; 114; 116]%N) ++ 45%N :: skipn (ix + 9) B).
